@@ -539,12 +539,13 @@ theorem Ext.refl (st : Store) : Ext st st := ⟨fun _ => rfl, fun _ _ h => h⟩
 theorem Ext.trans {a b c : Store} (h1 : Ext a b) (h2 : Ext b c) : Ext a c :=
   ⟨fun n => (h2.1 n).trans (h1.1 n), fun d x h => h2.2 d x (h1.2 d x h)⟩
 
-theorem Ext.readable {st st' : Store} (h : Ext st st') (n : Name) : readable st' n = readable st n := by
-  unfold readable; rw [h.1]
+theorem Ext.readable_eq {st st' : Store} (h : Ext st st') (n : Name) :
+    StoreCrash.readable st' n = StoreCrash.readable st n := by
+  unfold StoreCrash.readable; rw [h.1]
 
-theorem Ext.present {st st' : Store} (h : Ext st st') {d : Digest} (hp : present st (.blob d) = true) :
-    present st' (.blob d) = true := by
-  unfold present at *
+theorem Ext.present_mono {st st' : Store} (h : Ext st st') {d : Digest}
+    (hp : StoreCrash.present st (.blob d) = true) : StoreCrash.present st' (.blob d) = true := by
+  unfold StoreCrash.present at *
   cases hg : get st (.blob d) with
   | none => simp [hg] at hp
   | some c => rw [h.2 d c hg]; rfl
@@ -600,42 +601,42 @@ theorem newLayer_spec {hash : Bytes → Digest} (env : Env) (henv : env.hash = h
     (newLayer env k pieces st).ok = true := by
   subst henv
   unfold newLayer
-  have hpre : ∀ e ∈ [Effect.mk (.temp k)] ++ pieces.map (Effect.app (.temp k)), isScratchEff e = true := by
+  simp only [List.singleton_append]
+  generalize hpre_def : Effect.mk (.temp k) :: pieces.map (Effect.app (.temp k)) = pre
+  have hpre : ∀ e ∈ pre, isScratchEff e = true := by
+    subst hpre_def
     intro e he
-    rcases List.mem_append.mp he with h | h
-    · simp at h; subst h; rfl
+    rcases List.mem_cons.mp he with h | h
+    · subst h; rfl
     · obtain ⟨x, _, rfl⟩ := List.mem_map.mp h; rfl
   by_cases hp : present st (.blob (env.hash pieces.flatten)) = true
   · simp only [hp, ↓reduceIte]
-    have hall : ∀ e ∈ [Effect.mk (.temp k)] ++ pieces.map (Effect.app (.temp k)) ++ [Effect.rm (.temp k)],
-        isScratchEff e = true := by
+    have hall : ∀ e ∈ pre ++ [Effect.rm (.temp k)], isScratchEff e = true := by
       intro e he
       rcases List.mem_append.mp he with h | h
       · exact hpre e h
       · simp at h; subst h; rfl
-    refine ⟨seqOK_scratch hall, ?_, ?_, rfl⟩
+    refine ⟨seqOK_scratch hall, ?_, ?_, by trivial⟩
     · exact ⟨fun n => get_run_scratch hall rfl, fun d c h => by rw [get_run_scratch hall rfl]; exact h⟩
     · unfold present at *; rw [get_run_scratch hall rfl]; exact hp
   · simp only [hp, Bool.false_eq_true, ↓reduceIte]
     have hnone : get st (.blob (env.hash pieces.flatten)) = none := by
       unfold present at hp; cases hg : get st (.blob (env.hash pieces.flatten)) <;> simp [hg] at hp ⊢
     -- state after the temp file has been written
-    have hT : get (run ([Effect.mk (.temp k)] ++ pieces.map (Effect.app (.temp k))) st) (.temp k)
-        = some (.raw pieces.flatten) := by
-      rw [run_append]
-      have := run_apps (.temp k) pieces (run [Effect.mk (.temp k)] st) [] (by simp [run, apply, get_set])
+    have hT : get (run pre st) (.temp k) = some (.raw pieces.flatten) := by
+      subst hpre_def
+      simp only [run]
+      have := run_apps (.temp k) pieces (apply (Effect.mk (.temp k)) st) [] (by simp [apply, get_set])
       simpa using this
-    have hB : get (run ([Effect.mk (.temp k)] ++ pieces.map (Effect.app (.temp k))) st)
-        (.blob (env.hash pieces.flatten)) = none := by
+    have hB : get (run pre st) (.blob (env.hash pieces.flatten)) = none := by
       rw [get_run_scratch hpre rfl]; exact hnone
-    have hmv : EffOK env.hash (run ([Effect.mk (.temp k)] ++ pieces.map (Effect.app (.temp k))) st)
-        (.mv (.temp k) (.blob (env.hash pieces.flatten))) :=
+    have hmv : EffOK env.hash (run pre st) (.mv (.temp k) (.blob (env.hash pieces.flatten))) :=
       ⟨rfl, _, rfl, hB, _, hT, rfl⟩
-    have hseq : SeqOK env.hash st ([Effect.mk (.temp k)] ++ pieces.map (Effect.app (.temp k)) ++
+    have hseq : SeqOK env.hash st (pre ++
         [.mv (.temp k) (.blob (env.hash pieces.flatten)), .chmod (.blob (env.hash pieces.flatten))]) := by
       rw [seqOK_append]
       exact ⟨seqOK_scratch hpre, hmv, trivial, trivial⟩
-    refine ⟨hseq, ?_, ?_, rfl⟩
+    refine ⟨hseq, ?_, ?_, by trivial⟩
     · rw [run_append]
       constructor
       · intro n
@@ -651,7 +652,8 @@ theorem newLayer_spec {hash : Bytes → Digest} (env : Env) (henv : env.hash = h
     · rw [run_append]
       simp only [run, present]
       rw [get_apply_of_not_written (by simp [writes])]
-      simp [apply, hT, get_set]
+      simp only [apply, hT, get_set]
+      simp
 
 theorem upload_spec {hash : Bytes → Digest} (env : Env) (henv : env.hash = hash) (k : Nat) (d : Digest)
     (body : Bytes) (st : Store) :
@@ -698,7 +700,7 @@ theorem newLayers_spec {hash : Bytes → Digest} (env : Env) (henv : env.hash = 
       rcases List.mem_cons.mp hy with rfl | hy
       · have := h1.2.2.1
         simp only [List.flatten_cons, List.flatten_nil, List.append_nil] at this
-        exact h2.2.1.present this
+        exact h2.2.1.present_mono this
       · exact h2.2.2.2 y hy
 
 /-! ## Layer.Remove / RemoveLayers / deleteUnusedLayers -/
@@ -737,5 +739,548 @@ theorem deleteUnused_seqOK {hash : Bytes → Digest} (env : Env) (hord : ∀ l x
   have h1 := (List.mem_filter.mp hd).1
   have h2 := (List.mem_filter.mp (hord _ _ h1)).2
   simpa using h2
+
+
+/-! ## create, copy, delete -/
+
+theorem writeManifest_seqOK {hash : Bytes → Digest} (n : Name) (m : Man) (st : Store)
+    (h : ∀ l ∈ m.all, present st (.blob l.digest) = true) :
+    SeqOK hash st (writeManifest n m).effs := by
+  refine ⟨(by intro d h; cases h), ?_, trivial⟩
+  right
+  refine ⟨n, m, rfl, rfl, ?_⟩
+  intro l hl
+  rw [get_apply_of_not_written (by simp [writes])]
+  exact h l hl
+
+theorem createHandler_seqOK {hash : Bytes → Digest} (env : Env) (henv : env.hash = hash) (k : Nat)
+    (n : Name) (file : Digest) (datas : List Bytes) (cfg : Bytes) (st : Store) :
+    SeqOK hash st (createHandler env k n file datas cfg st).effs := by
+  unfold createHandler
+  dsimp only
+  split
+  · trivial
+  · rename_i hfile
+    have hfile' : present st (.blob file) = true := by simpa using hfile
+    have hnl := newLayers_spec env henv k (datas ++ [cfg]) st
+    apply seqOK_andThen hnl.1
+    intro _
+    apply seqOK_andThen
+    · apply writeManifest_seqOK
+      intro l hl
+      simp only [createMan, Man.all, List.cons_append, List.mem_cons, List.mem_append, List.mem_map,
+        List.mem_singleton, List.not_mem_nil, or_false] at hl
+      rcases hl with rfl | ⟨x, hx, rfl⟩ | rfl
+      · exact hnl.2.1.present_mono hfile'
+      · have := hnl.2.2.2 x (by simp [hx])
+        simpa [layerOf, henv] using this
+      · have := hnl.2.2.2 cfg (by simp)
+        simpa [layerOf, henv] using this
+    · intro _
+      split
+      · exact removeLayers_seqOK _ _
+      · trivial
+
+theorem create_seqOK {hash : Bytes → Digest} (env : Env) (henv : env.hash = hash)
+    (n : Name) (ups : List (Digest × Bytes)) (file : Digest) (datas : List Bytes) (cfg : Bytes) (st : Store) :
+    SeqOK hash st (create env n ups file datas cfg st).effs := by
+  unfold create
+  exact seqOK_andThen (uploads_spec env henv 0 ups st).1 (fun _ => createHandler_seqOK env henv _ _ _ _ _ _)
+
+theorem copy_seqOK {hash : Bytes → Digest} (src dst : Name) (st : Store) :
+    SeqOK hash st (copy src dst st).effs := by
+  unfold copy
+  split
+  · trivial
+  · split
+    · trivial
+    · exact ⟨(by intro d h; cases h), ⟨⟨src, rfl⟩, ⟨dst, rfl⟩⟩, trivial⟩
+
+theorem delete_seqOK {hash : Bytes → Digest} (n : Name) (st : Store) :
+    SeqOK hash st (delete n st).effs := by
+  unfold delete
+  split
+  · trivial
+  · apply seqOK_andThen
+    · exact ⟨Or.inr (Or.inl ⟨n, rfl⟩), trivial⟩
+    · intro _; exact removeLayers_seqOK _ _
+
+/-! ## pull -/
+
+/-- content of a file after a run of sequential pwrites -/
+def overlayAll (old : Bytes) (off : Nat) : List Bytes → Bytes
+  | [] => old
+  | x :: rest => overlayAll (overlay old off x) (off + x.length) rest
+
+theorem run_pwrites (P : Path) (off : Nat) (pieces : List Bytes) (st : Store) (old : Bytes)
+    (h : get st P = some (.raw old)) :
+    get (run (pwrites P off pieces) st) P = some (.raw (overlayAll old off pieces)) := by
+  induction pieces generalizing st old off with
+  | nil => simpa [pwrites, run, overlayAll] using h
+  | cons x rest ih =>
+    simp only [pwrites, run, overlayAll]
+    exact ih _ _ _ (by simp [apply, h, get_set])
+
+theorem overlayAll_eq (old : Bytes) (off : Nat) (pieces : List Bytes) (h : off ≤ old.length) :
+    overlayAll old off pieces =
+      old.take off ++ pieces.flatten ++ old.drop (off + pieces.flatten.length) := by
+  induction pieces generalizing old off with
+  | nil => simp [overlayAll]
+  | cons x rest ih =>
+    simp only [overlayAll, List.flatten_cons, List.length_append]
+    have hrep : off - old.length = 0 := by omega
+    have hov : overlay old off x = old.take off ++ (x ++ old.drop (off + x.length)) := by
+      simp [overlay, hrep]
+    have hlen : (old.take off).length = off := by simp [List.length_take]; omega
+    have hle : off + x.length ≤ (overlay old off x).length := by
+      rw [hov]; simp only [List.length_append, hlen]; omega
+    rw [ih _ _ hle, hov]
+    have h1 : List.take (off + x.length) (old.take off ++ (x ++ old.drop (off + x.length))) = old.take off ++ x := by
+      rw [← List.append_assoc]
+      apply List.take_left'
+      rw [List.length_append, hlen]
+    have h2 : List.drop (off + x.length + rest.flatten.length) (old.take off ++ (x ++ old.drop (off + x.length)))
+        = old.drop (off + (x.length + rest.flatten.length)) := by
+      rw [← List.append_assoc]
+      have hl2 : (old.take off ++ x).length = off + x.length := by rw [List.length_append, hlen]
+      have : off + x.length + rest.flatten.length = (old.take off ++ x).length + rest.flatten.length := by
+        rw [hl2]
+      rw [this, List.drop_append, List.drop_drop, List.drop_eq_nil_of_le (by omega), List.nil_append]
+      congr 1; omega
+    rw [h1, h2]
+    simp [List.append_assoc]
+
+theorem overlayAll_full (n : Nat) (pieces : List Bytes) (h : pieces.flatten.length = n) :
+    overlayAll (resize [] n) 0 pieces = pieces.flatten := by
+  rw [overlayAll_eq _ _ _ (by omega)]
+  simp [resize, h]
+
+/-- no `-partial` file and no part record anywhere: the state of blobs/ after any start-up that pruned -/
+def NoPullDebris (st : Store) : Prop :=
+  ∀ d, get st (.pfile d) = none ∧ ∀ k, get st (.part d k) = none
+
+theorem pwrites_scratch (d : Digest) (off : Nat) (pieces : List Bytes) :
+    ∀ e ∈ pwrites (.pfile d) off pieces, isScratchEff e = true := by
+  induction pieces generalizing off with
+  | nil => simp [pwrites]
+  | cons x rest ih =>
+    intro e he
+    simp only [pwrites, List.mem_cons] at he
+    rcases he with rfl | he
+    · rfl
+    · exact ih _ e he
+
+theorem pwrites_writes (P : Path) (off : Nat) (pieces : List Bytes) :
+    ∀ e ∈ pwrites P off pieces, writes e = [P] := by
+  induction pieces generalizing off with
+  | nil => simp [pwrites]
+  | cons x rest ih =>
+    intro e he
+    simp only [pwrites, List.mem_cons] at he
+    rcases he with rfl | he
+    · rfl
+    · exact ih _ e he
+
+/-- a fresh download from an honest registry: safe at every prefix, ends with the blob in place and
+no debris -/
+theorem download_spec {hash : Bytes → Digest} (env : Env) (henv : env.hash = hash)
+    (hchunk : ∀ bs, (env.chunk bs).flatten = bs) (d : Digest) (data : Bytes) (hd : hash data = d)
+    (st : Store) (hdeb : NoPullDebris st) (habs : get st (.blob d) = none) :
+    SeqOK hash st (download env d data st).effs ∧
+    Ext st (run (download env d data st).effs st) ∧
+    present (run (download env d data st).effs st) (.blob d) = true ∧
+    NoPullDebris (run (download env d data st).effs st) ∧
+    (download env d data st).ok = true := by
+  subst henv
+  unfold download
+  simp only [(hdeb d).2 0]
+  -- the scratch part of the effect list and the content of the -partial file after it
+  have key : ∀ (S : List Effect), (∀ e ∈ S, isScratchEff e = true) →
+      get (run S st) (.pfile d) = some (.raw data) →
+      (∀ d' k, get (run S st) (.part d' k) = none) →
+      (∀ d', d' ≠ d → get (run S st) (.pfile d') = none) →
+      SeqOK env.hash st (S ++ [.mv (.pfile d) (.blob d)]) ∧
+      Ext st (run (S ++ [.mv (.pfile d) (.blob d)]) st) ∧
+      present (run (S ++ [.mv (.pfile d) (.blob d)]) st) (.blob d) = true ∧
+      NoPullDebris (run (S ++ [.mv (.pfile d) (.blob d)]) st) := by
+    intro S hS hP hparts hpf
+    have hB : get (run S st) (.blob d) = none := by rw [get_run_scratch hS rfl]; exact habs
+    refine ⟨seqOK_append.mpr ⟨seqOK_scratch hS, ⟨rfl, d, rfl, hB, data, hP, hd⟩, trivial⟩, ?_, ?_, ?_⟩
+    · rw [run_append]
+      constructor
+      · intro n; simp only [run]
+        rw [get_apply_of_not_written (by simp [writes]), get_run_scratch hS rfl]
+      · intro d' c h; simp only [run]
+        by_cases hd' : d' = d
+        · subst hd'; rw [habs] at h; cases h
+        · rw [get_apply_of_not_written (by simp [writes]; exact hd'), get_run_scratch hS rfl]; exact h
+    · rw [run_append]; simp [run, present, apply, hP, get_set]
+    · rw [run_append]
+      intro d'
+      simp only [run]
+      constructor
+      · by_cases hd' : d' = d
+        · subst hd'; simp [apply, hP, get_set, get_del]
+        · rw [get_apply_of_not_written (by simp [writes]; exact hd')]; exact hpf d' hd'
+      · intro k; rw [get_apply_of_not_written (by simp [writes])]; exact hparts d' k
+  by_cases hz : data.length = 0
+  · simp only [hz, ↓reduceIte]
+    have hdata : data = [] := List.eq_nil_of_length_eq_zero hz
+    have := key [.touch (.pfile d), .ftr (.pfile d) 0] (by intro e he; simp at he; rcases he with rfl | rfl <;> rfl)
+      (by simp [run, apply, (hdeb d).1, get_set, resize, hdata])
+      (by intro d' k; rw [get_run_of_not_written (by intro e he; simp at he; rcases he with rfl | rfl <;> simp [writes])]
+          exact (hdeb d').2 k)
+      (by intro d' hd'; rw [get_run_of_not_written (by
+            intro e he; simp at he; rcases he with rfl | rfl <;> simp [writes] <;> exact hd')]
+          exact (hdeb d').1)
+    exact ⟨this.1, this.2.1, this.2.2.1, this.2.2.2, by trivial⟩
+  · simp only [hz, ↓reduceIte]
+    generalize hr0 : ({ n := 0, off := 0, size := data.length, completed := 0 } : PartRec) = r0
+    generalize hr1 : ({ n := 0, off := 0, size := data.length, completed := data.length } : PartRec) = r1
+    have hS : ∀ e ∈ [Effect.mk (.part d 0), .put (.part d 0) (.prec r0), .touch (.pfile d), .ftr (.pfile d) data.length] ++
+        pwrites (.pfile d) 0 (env.chunk data) ++ [.mk (.part d 0), .put (.part d 0) (.prec r1), .rm (.part d 0)],
+        isScratchEff e = true := by
+      intro e he
+      simp only [List.mem_append, List.mem_cons, List.not_mem_nil, or_false] at he
+      rcases he with (((rfl | rfl | rfl | rfl) | he) | (rfl | rfl | rfl))
+      all_goals first | rfl | exact pwrites_scratch d 0 _ e he
+    have hlist : [Effect.mk (.part d 0), .put (.part d 0) (.prec r0), .touch (.pfile d), .ftr (.pfile d) data.length] ++
+        pwrites (.pfile d) 0 (env.chunk data) ++
+        [.mk (.part d 0), .put (.part d 0) (.prec r1), .rm (.part d 0), .mv (.pfile d) (.blob d)] =
+        ([Effect.mk (.part d 0), .put (.part d 0) (.prec r0), .touch (.pfile d), .ftr (.pfile d) data.length] ++
+        pwrites (.pfile d) 0 (env.chunk data) ++ [.mk (.part d 0), .put (.part d 0) (.prec r1), .rm (.part d 0)]) ++
+        [.mv (.pfile d) (.blob d)] := by simp
+    rw [hlist]
+    have hP : get (run ([Effect.mk (.part d 0), .put (.part d 0) (.prec r0), .touch (.pfile d), .ftr (.pfile d) data.length] ++
+        pwrites (.pfile d) 0 (env.chunk data) ++ [.mk (.part d 0), .put (.part d 0) (.prec r1), .rm (.part d 0)]) st)
+        (.pfile d) = some (.raw data) := by
+      rw [run_append, get_run_of_not_written (by intro e he; simp at he; rcases he with rfl | rfl | rfl <;> simp [writes]),
+        run_append]
+      have h0 : get (run [Effect.mk (.part d 0), .put (.part d 0) (.prec r0), .touch (.pfile d), .ftr (.pfile d) data.length] st)
+          (.pfile d) = some (.raw (resize [] data.length)) := by
+        simp [run, apply, (hdeb d).1, get_set]
+      rw [run_pwrites _ _ _ _ _ h0, overlayAll_full _ _ (by rw [hchunk]), hchunk]
+    have hparts : ∀ d' k, get (run ([Effect.mk (.part d 0), .put (.part d 0) (.prec r0), .touch (.pfile d), .ftr (.pfile d) data.length] ++
+        pwrites (.pfile d) 0 (env.chunk data) ++ [.mk (.part d 0), .put (.part d 0) (.prec r1), .rm (.part d 0)]) st)
+        (.part d' k) = none := by
+      intro d' k
+      by_cases hdk : Path.part d' k = Path.part d 0
+      · rw [hdk, run_append]; simp [run, apply, get_del]
+      · rw [get_run_of_not_written]
+        · exact (hdeb d').2 k
+        · intro e he
+          simp only [List.mem_append, List.mem_cons, List.not_mem_nil, or_false] at he
+          rcases he with (((rfl | rfl | rfl | rfl) | he) | (rfl | rfl | rfl))
+          all_goals first
+            | (rw [pwrites_writes _ _ _ e he]; simp; done)
+            | (simp only [writes, List.mem_singleton]; exact hdk)
+            | (simp [writes]; done)
+    have hpf : ∀ d', d' ≠ d → get (run ([Effect.mk (.part d 0), .put (.part d 0) (.prec r0), .touch (.pfile d), .ftr (.pfile d) data.length] ++
+        pwrites (.pfile d) 0 (env.chunk data) ++ [.mk (.part d 0), .put (.part d 0) (.prec r1), .rm (.part d 0)]) st)
+        (.pfile d') = none := by
+      intro d' hd'
+      rw [get_run_of_not_written]
+      · exact (hdeb d').1
+      · intro e he
+        simp only [List.mem_append, List.mem_cons, List.not_mem_nil, or_false] at he
+        rcases he with (((rfl | rfl | rfl | rfl) | he) | (rfl | rfl | rfl))
+        all_goals first
+          | (rw [pwrites_writes _ _ _ e he]; simp; exact hd')
+          | (simp [writes]; done)
+          | (simp [writes]; exact hd')
+    have := key _ hS hP hparts hpf
+    exact ⟨this.1, this.2.1, this.2.2.1, this.2.2.2, by trivial⟩
+
+
+theorem present_false_get {st : Store} {p : Path} (h : ¬ present st p = true) : get st p = none := by
+  unfold present at h; cases hg : get st p <;> simp [hg] at h ⊢
+
+theorem downloads_spec {hash : Bytes → Digest} (env : Env) (henv : env.hash = hash)
+    (hchunk : ∀ bs, (env.chunk bs).flatten = bs) (reg : Digest → Option Bytes)
+    (hreg : ∀ d data, reg d = some data → hash data = d) (ds : List Digest) (st : Store)
+    (hdeb : NoPullDebris st) :
+    SeqOK hash st (downloads env reg ds st).1.effs ∧
+    Ext st (run (downloads env reg ds st).1.effs st) ∧
+    ((downloads env reg ds st).1.ok = true →
+      ∀ d ∈ ds, present (run (downloads env reg ds st).1.effs st) (.blob d) = true) := by
+  induction ds generalizing st with
+  | nil => exact ⟨trivial, Ext.refl st, by simp⟩
+  | cons d rest ih =>
+    unfold downloads
+    by_cases hp : present st (.blob d) = true
+    · simp only [hp, ↓reduceIte]
+      have := ih st hdeb
+      refine ⟨this.1, this.2.1, ?_⟩
+      intro hok d' hd'
+      rcases List.mem_cons.mp hd' with rfl | hd'
+      · exact this.2.1.present_mono hp
+      · exact this.2.2 hok d' hd'
+    · simp only [hp, Bool.false_eq_true, ↓reduceIte]
+      cases hr : reg d with
+      | none => exact ⟨trivial, Ext.refl st, by simp⟩
+      | some data =>
+        have hd := download_spec env henv hchunk d data (hreg d data hr) st hdeb (present_false_get hp)
+        simp only [hd.2.2.2.2, ↓reduceIte]
+        have := ih (run (download env d data st).effs st) hd.2.2.2.1
+        cases hX : downloads env reg rest (run (download env d data st).effs st) with
+        | mk b v =>
+          rw [hX] at this
+          simp only at this ⊢
+          refine ⟨seqOK_append.mpr ⟨hd.1, this.1⟩, ?_, ?_⟩
+          · rw [run_append]; exact hd.2.1.trans this.2.1
+          · intro hok d' hd'
+            rw [run_append]
+            rcases List.mem_cons.mp hd' with rfl | hd'
+            · exact this.2.1.present_mono hd.2.2.1
+            · exact this.2.2 hok d' hd'
+
+theorem verify_effs_nil (env : Env) (ds : List Digest) (st : Store) (h : BlobInv env.hash st) :
+    (verify env ds st).effs = [] := by
+  induction ds with
+  | nil => rfl
+  | cons d rest ih =>
+    unfold verify
+    split
+    · rename_i bs hg
+      obtain ⟨bs', hc, hh⟩ := h d _ hg
+      injection hc with hc; subst hc
+      simp [hh, ih]
+    · rfl
+
+theorem pull_seqOK {hash : Bytes → Digest} (env : Env) (henv : env.hash = hash)
+    (hchunk : ∀ bs, (env.chunk bs).flatten = bs) (hord : ∀ l x, x ∈ env.ord l → x ∈ l)
+    (reg : Digest → Option Bytes) (hreg : ∀ d data, reg d = some data → hash data = d)
+    (n : Name) (m : Man) (st : Store) (hinv : Inv hash st) (hdeb : NoPullDebris st) :
+    SeqOK hash st (pull env reg n m st).effs := by
+  unfold pull
+  dsimp only
+  have hds := downloads_spec env henv hchunk reg hreg (m.all.map Layer.digest) st hdeb
+  cases hX : downloads env reg (m.all.map Layer.digest) st with
+  | mk dl fresh =>
+    rw [hX] at hds
+    simp only at hds ⊢
+    apply seqOK_andThen hds.1
+    intro hok
+    have hinv1 : Inv hash (run dl.effs st) := seq_preserves_inv hinv hds.1
+    have hv : (verify env fresh (run dl.effs st)).effs = [] := verify_effs_nil env fresh _ (henv ▸ hinv1.1)
+    apply seqOK_andThen
+    · rw [hv]; trivial
+    · intro _
+      rw [hv]
+      simp only [run]
+      apply seqOK_andThen
+      · apply writeManifest_seqOK
+        intro l hl
+        exact hds.2.2 hok l.digest (List.mem_map.mpr ⟨l, hl, rfl⟩)
+      · intro _; exact deleteUnused_seqOK env hord _ _
+
+/-! ## which manifests an operation writes -/
+
+def ManOnly (N : List Name) (es : List Effect) : Prop :=
+  ∀ e ∈ es, ∀ n', Path.man n' ∈ writes e → n' ∈ N
+
+theorem manOnly_nil (N : List Name) : ManOnly N [] := by intro e he; cases he
+
+theorem manOnly_append {N : List Name} {a b : List Effect} (ha : ManOnly N a) (hb : ManOnly N b) :
+    ManOnly N (a ++ b) := by
+  intro e he
+  rcases List.mem_append.mp he with h | h
+  · exact ha e h
+  · exact hb e h
+
+theorem manOnly_andThen {N : List Name} {a : Res} {st : Store} {f : Store → Res}
+    (ha : ManOnly N a.effs) (hf : ∀ st', ManOnly N (f st').effs) : ManOnly N (a.andThen st f).effs := by
+  rw [andThen_effs]; split
+  · exact manOnly_append ha (hf _)
+  · exact ha
+
+theorem manOnly_of_noMan {N : List Name} {es : List Effect}
+    (h : ∀ e ∈ es, ∀ n', Path.man n' ∉ writes e) : ManOnly N es :=
+  fun e he n' hw => absurd hw (h e he n')
+
+theorem manOnly_scratch {N : List Name} {es : List Effect} (h : ∀ e ∈ es, isScratchEff e = true) :
+    ManOnly N es := by
+  apply manOnly_of_noMan
+  intro e he n' hw
+  have := scratchEff_writes (h e he) _ hw
+  simp [Path.isScratch] at this
+
+theorem manOnly_newLayer (N : List Name) (env : Env) (k : Nat) (pieces : List Bytes) (st : Store) :
+    ManOnly N (newLayer env k pieces st).effs := by
+  apply manOnly_of_noMan
+  intro e he n' hw
+  unfold newLayer at he
+  dsimp only at he
+  by_cases hp : present st (.blob (env.hash pieces.flatten)) = true
+  · simp only [hp, ↓reduceIte, List.mem_append, List.mem_cons, List.mem_map, List.not_mem_nil, or_false] at he
+    rcases he with (rfl | ⟨x, _, rfl⟩) | rfl <;> simp [writes] at hw
+  · simp only [hp, Bool.false_eq_true, ↓reduceIte, List.mem_append, List.mem_cons, List.mem_map,
+      List.not_mem_nil, or_false] at he
+    rcases he with (rfl | ⟨x, _, rfl⟩) | rfl | rfl <;> simp [writes] at hw
+
+theorem manOnly_uploads (N : List Name) (env : Env) (k : Nat) (ups : List (Digest × Bytes)) (st : Store) :
+    ManOnly N (uploads env k ups st).effs := by
+  induction ups generalizing st k with
+  | nil => exact manOnly_nil N
+  | cons u rest ih =>
+    obtain ⟨d, body⟩ := u
+    simp only [uploads]
+    apply manOnly_andThen
+    · unfold upload; split
+      · exact manOnly_nil N
+      · exact manOnly_newLayer N env k _ st
+    · intro st'; exact ih _ _
+
+theorem manOnly_newLayers (N : List Name) (env : Env) (k : Nat) (datas : List Bytes) (st : Store) :
+    ManOnly N (newLayers env k datas st).effs := by
+  induction datas generalizing st k with
+  | nil => exact manOnly_nil N
+  | cons x rest ih =>
+    simp only [newLayers]
+    exact manOnly_andThen (manOnly_newLayer N env k _ st) (fun st' => ih _ _)
+
+theorem manOnly_removeLayers (N : List Name) (ds : List Digest) (st : Store) :
+    ManOnly N (removeLayers ds st).effs := by
+  induction ds generalizing st with
+  | nil => exact manOnly_nil N
+  | cons d rest ih =>
+    simp only [removeLayers]
+    apply manOnly_andThen
+    · unfold layerRemove; split
+      · exact manOnly_nil N
+      · intro e he n' hw; simp at he; subst he; simp [writes] at hw
+    · intro st'; exact ih _
+
+theorem manOnly_writeManifest (n : Name) (m : Man) : ManOnly [n] (writeManifest n m).effs := by
+  intro e he n' hw
+  simp [writeManifest] at he
+  rcases he with rfl | rfl <;> simp [writes] at hw <;> simp [hw]
+
+theorem manOnly_download (N : List Name) (env : Env) (d : Digest) (data : Bytes) (st : Store) :
+    ManOnly N (download env d data st).effs := by
+  apply manOnly_of_noMan
+  intro e he n' hw
+  have hpw : ∀ off cs, e ∈ pwrites (.pfile d) off cs → False := by
+    intro off cs h; rw [pwrites_writes _ _ _ e h] at hw; simp at hw
+  unfold download at he
+  dsimp only at he
+  cases hR : get st (.part d 0) with
+  | none =>
+    simp only [hR] at he
+    by_cases hz : data.length = 0
+    · simp only [hz, ↓reduceIte, List.mem_cons, List.not_mem_nil, or_false] at he
+      rcases he with rfl | rfl | rfl <;> simp [writes] at hw
+    · simp only [hz, ↓reduceIte, List.mem_append, List.mem_cons, List.not_mem_nil, or_false] at he
+      rcases he with ((rfl | rfl | rfl | rfl) | h) | rfl | rfl | rfl | rfl
+      all_goals first | (exact hpw _ _ h) | (simp [writes] at hw)
+  | some c =>
+    cases c with
+    | raw bs => simp [hR] at he
+    | man m => simp [hR] at he
+    | prec r =>
+      simp only [hR] at he
+      by_cases hc : r.completed = r.size
+      · simp only [hc, ↓reduceIte, List.mem_append, List.mem_cons, List.not_mem_nil, or_false,
+          List.append_nil] at he
+        rcases he with (rfl | rfl) | rfl | rfl <;> simp [writes] at hw
+      · simp only [hc, ↓reduceIte, List.mem_append, List.mem_cons, List.not_mem_nil, or_false] at he
+        rcases he with ((rfl | rfl) | h | rfl | rfl) | rfl | rfl
+        all_goals first | (exact hpw _ _ h) | (simp [writes] at hw)
+
+theorem manOnly_downloads (N : List Name) (env : Env) (reg : Digest → Option Bytes) (ds : List Digest)
+    (st : Store) : ManOnly N (downloads env reg ds st).1.effs := by
+  induction ds generalizing st with
+  | nil => exact manOnly_nil N
+  | cons d rest ih =>
+    unfold downloads
+    split
+    · exact ih st
+    · split
+      · exact manOnly_nil N
+      · rename_i data _
+        dsimp only
+        split
+        · cases hX : downloads env reg rest (run (download env d data st).effs st) with
+          | mk b v =>
+            have := ih (run (download env d data st).effs st)
+            rw [hX] at this
+            exact manOnly_append (manOnly_download N env d data st) this
+        · exact manOnly_download N env d data st
+
+theorem manOnly_verify (N : List Name) (env : Env) (ds : List Digest) (st : Store) :
+    ManOnly N (verify env ds st).effs := by
+  induction ds with
+  | nil => exact manOnly_nil N
+  | cons d rest ih =>
+    unfold verify
+    split
+    · split
+      · exact ih
+      · intro e he n' hw; simp at he; subst he; simp [writes] at hw
+    · exact manOnly_nil N
+
+theorem manOnly_deleteUnused (N : List Name) (env : Env) (cand : List Digest) (st : Store) :
+    ManOnly N (deleteUnused env cand st).effs := by
+  intro e he n' hw
+  unfold deleteUnused at he
+  obtain ⟨d, _, rfl⟩ := List.mem_map.mp he
+  simp [writes] at hw
+
+theorem manOnly_exec (env : Env) (op : Op) (st : Store) : ManOnly op.involved (op.exec env st).effs := by
+  cases op with
+  | upload k d body =>
+    simp only [Op.exec, Op.involved]
+    unfold upload; split
+    · exact manOnly_nil _
+    · exact manOnly_newLayer _ env k _ st
+  | create n ups file datas cfg =>
+    simp only [Op.exec, Op.involved, create]
+    apply manOnly_andThen (manOnly_uploads _ env 0 ups st)
+    intro st'
+    unfold createHandler
+    dsimp only
+    split
+    · exact manOnly_nil _
+    · apply manOnly_andThen (manOnly_newLayers _ env _ _ st')
+      intro st2
+      apply manOnly_andThen (manOnly_writeManifest n _)
+      intro st3
+      split
+      · exact manOnly_removeLayers _ _ _
+      · exact manOnly_nil _
+  | copy src dst =>
+    simp only [Op.exec, Op.involved]
+    unfold copy
+    split
+    · exact manOnly_nil _
+    · split
+      · exact manOnly_nil _
+      · intro e he n' hw
+        simp at he
+        rcases he with rfl | rfl <;> simp [writes] at hw <;> simp [hw]
+  | delete n =>
+    simp only [Op.exec, Op.involved]
+    unfold delete
+    split
+    · exact manOnly_nil _
+    · apply manOnly_andThen
+      · intro e he n' hw; simp at he; subst he; simp [writes] at hw; simp [hw]
+      · intro st'; exact manOnly_removeLayers _ _ _
+  | pull reg n m =>
+    simp only [Op.exec, Op.involved]
+    unfold pull
+    dsimp only
+    cases hX : downloads env reg (m.all.map Layer.digest) st with
+    | mk dl fresh =>
+      simp only
+      have := manOnly_downloads [n] env reg (m.all.map Layer.digest) st
+      rw [hX] at this
+      apply manOnly_andThen this
+      intro st1
+      apply manOnly_andThen (manOnly_verify _ env fresh st1)
+      intro st2
+      apply manOnly_andThen (manOnly_writeManifest n m)
+      intro st3
+      exact manOnly_deleteUnused _ env _ st3
 
 end OllamaVerif.StoreCrash
